@@ -99,7 +99,7 @@ def generate(batch: str, r: Rng, idx: int, tier: str) -> Dict[str, Any]:
     ro = r.child("ops")
     while len(ops) < n:
         kind = ro.weighted([("tick", 30), ("press", 10), ("release", 8), ("read", 8), ("strobe", 4), ("chatter", 3),
-                            ("hold_run", 3), ("consume", 2), ("inject", 1), ("clrisr", 2), ("kbirq", 1)])
+                            ("hold_run", 3), ("consume", 2), ("inject", 1), ("clrisr", 2), ("kbirq", 1), ("restart", 1)])
         if kind == "tick":
             ops.append(["tick"])
         elif kind == "press":
@@ -131,6 +131,8 @@ def generate(batch: str, r: Rng, idx: int, tier: str) -> Dict[str, Any]:
                 ops.append(["tick"])
         elif kind == "consume":
             ops.append(["consume"])
+        elif kind == "restart":
+            ops.append(["restart"])       # snapshot -> JSON -> a fresh matrix: nothing may change
         elif kind == "inject":
             ops.append(["inject", ro.choice(keys), ro.chance(1, 3)])
         elif kind == "clrisr":
@@ -183,6 +185,12 @@ def _run_py(scn: Dict[str, Any]) -> List[list]:
             ret = 1 if mx.inject_event(machine.key_name(op[1]), release=bool(op[2])) else 0
         elif k == "consume":
             h.consume_pending_events()
+        elif k == "restart":
+            import json as _json
+            saved = _json.loads(_json.dumps(h.snapshot_state()))
+            h = PCE500KeyboardHandler(None, columns_active_high=bool(cfg["active_high"]))
+            h.load_state(saved)
+            mx = h._matrix
         out.append([ret, state()])
     return out
 
@@ -514,7 +522,8 @@ def stats(scn: Dict[str, Any], hist: Dict[str, Any]) -> Dict[str, Any]:
     if not scn["cfg"]["active_high"]:
         probes["active_low"] = 1
     faults = {"key_press": kinds.count("press"), "key_release": kinds.count("release"), "strobe_change": kinds.count("kol"),
-              "inject_event": kinds.count("inject"), "consume": kinds.count("consume")}
+              "inject_event": kinds.count("inject"), "consume": kinds.count("consume"),
+              "snapshot_restore": kinds.count("restart")}
     nontrivial = probes.get("debounced_press", 0) > 0 and "read" in kinds
     return {"nontrivial": nontrivial, "sig": digest([scn["cfg"], scn["keys"], scn["ops"]]), "faults": faults,
             "probes": probes, "cycles": kinds.count("tick"), "boundaries": len(kinds)}
